@@ -4,6 +4,8 @@ unchanged and makes xi zero-mean; every row of the mixing matrix is orthogonal, 
 direction of progression.  Bounded: seeded states of the shipped model kinds."""
 import numpy as np
 import pandas as pd
+import itertools
+
 import torch
 
 from .common import MODEL_KINDS, make_model_state, cohort, quiet, tensor_value
@@ -106,4 +108,62 @@ def standin_gauge(tier, seed):
                 bound=dict(space="seeded states of logistic / linear / joint models", repetitions=reps, exhaustive=False, seed=seed))
 
 
-STANDINS = [standin_gauge]
+def standin_trajectory_orthogonality(tier, seed):
+    """orthogonality measured on the trajectories themselves (not on the model's own intermediate vectors): at the reference time
+    of the average individual, the derivative of the real trajectory with respect to each source is orthogonal, in the model's
+    metric, to its derivative with respect to time -- for models loaded from hand-written parameters with clearly non-zero
+    positions, deltas and mixing coefficients."""
+    import leaspy.models  # noqa
+    from leaspy.models import BaseModel
+    violations, evals, distinct, samples = [], 0, set(), []
+    rng = np.random.default_rng(seed)
+
+    def settings(kind, dim, n_src):
+        par = {"betas_mean": rng.normal(0, 0.5, (dim - 1, n_src)).tolist(), "noise_std": 0.1, "tau_mean": [70.0], "tau_std": [8.0],
+               "xi_std": [0.5]}
+        if kind == "shared_speed_logistic":
+            par.update(deltas_mean=rng.normal(0, 1.0, (dim - 1,)).tolist(), log_g_mean=[float(rng.normal(0.5, 0.5))], xi_mean=[-2.0])
+        else:
+            par.update(log_g_mean=rng.normal(0.3, 0.8, (dim,)).tolist(), log_v0_mean=rng.normal(-3.0, 0.5, (dim,)).tolist())
+        return {"leaspy_version": "2.0.0", "name": kind, "features": [f"Y{k}" for k in range(dim)], "dimension": dim,
+                "obs_models": {"y": "gaussian-scalar"}, "hyperparameters": {}, "parameters": par, "source_dimension": n_src}
+    cases = [("shared_speed_logistic", 3, 1), ("shared_speed_logistic", 4, 2), ("logistic", 3, 2), ("logistic", 4, 1)]
+    reps = 2 if tier == "quick" else 8
+    for (kind, dim, n_src), rep in itertools.product(cases, range(reps)):
+        try:
+            with quiet():
+                model = BaseModel.load(settings(kind, dim, n_src))
+        except Exception as e:
+            violations.append(dict(key=f"{kind}: hand-written parameters cannot be loaded: {type(e).__name__}: {str(e)[:80]}"))
+            break
+        xi = float(model.parameters["xi_mean"]) if "xi_mean" in model.parameters else 0.0
+        tau = 70.0
+
+        def traj(t, src):
+            out = model.compute_individual_trajectory([t], {"xi": xi, "tau": tau, "sources": list(src)})
+            return out.reshape(-1).to(torch.float64)
+        zero = [0.0] * n_src
+        h_t, h_s = 0.5, 0.1
+        d_time = (traj(tau + h_t, zero) - traj(tau - h_t, zero)) / (2 * h_t)
+        G = model.state["metric"].to(torch.float64).reshape(-1) ** 2
+        worst = 0.0
+        for j in range(n_src):
+            sp, sm = list(zero), list(zero)
+            sp[j], sm[j] = h_s, -h_s
+            d_src = (traj(tau, sp) - traj(tau, sm)) / (2 * h_s)
+            cos = (d_src * G * d_time).sum() / ((d_src * G * d_src).sum().sqrt() * (d_time * G * d_time).sum().sqrt() + 1e-30)
+            worst = max(worst, abs(float(cos)))
+        evals += 1
+        distinct.add((kind, dim, n_src, rep))
+        if worst > 2e-2:            # finite differences in single precision: ~1e-4 when the property holds
+            violations.append(dict(key=f"{kind}: a space shift is not orthogonal (model's metric) to the direction of progression of the real trajectories",
+                                   cosine=worst, dimension=dim, sources=n_src))
+            break
+        if len(samples) < 2:
+            samples.append(dict(kind=kind, dimension=dim, sources=n_src, worst_cosine=worst))
+    return dict(evaluations=evals, distinct_nontrivial=len(distinct),
+                rule="one evaluation = one hand-parametrised model whose trajectory derivatives (time vs each source) are compared in the model's metric",
+                samples=samples, violations=violations[:60], bound=dict(cases=len(cases), repetitions=reps, exhaustive=False, seed=seed))
+
+
+STANDINS = [standin_gauge, standin_trajectory_orthogonality]
